@@ -519,6 +519,11 @@ class Interp:
                 v = self.on_call(e, fname, fval, args, kwargs, st)
                 if v is not None:
                     return v
+            if fname is not None and isinstance(e.func, (ast.Name, ast.Attribute)):
+                last = fname.split(".")[-1]
+                if last in _EXC_PARENTS or last in (getattr(self, "exc_parents", None) or {}) or last in ("Exception", "BaseException"):
+                    # an exception object built to be raised later (`return InvalidTypeError(...)`; `raise helper(...)`)
+                    return R("exc", cls=K(last), **({"message": args[0]} if args else {}))
             return U(f"call {norm(e)[:60]}")
         if isinstance(e, ast.Subscript):
             obj = self.eval(e.value, st)
@@ -1375,7 +1380,18 @@ class Interp:
                         name = held.name[4:]
                     elif isinstance(held, R) and held.kind == "exc" and isinstance(held.fields.get("cls"), K):
                         name = str(held.fields["cls"].v)
-            if isinstance(s.exc, ast.Call):
+            if isinstance(s.exc, ast.Call) and name not in _EXC_PARENTS and name not in (getattr(self, "exc_parents", None) or {}) and name not in ("Exception", "BaseException"):
+                # `raise where.not_a_function(found)`: the call is not an exception class - what it RETURNS is what is raised
+                built = self.eval(s.exc, st)
+                if st.pending is not None:
+                    return [st]
+                if isinstance(built, R) and built.kind == "exc" and isinstance(built.fields.get("cls"), K):
+                    st.term = ("raise", str(built.fields["cls"].v), norm(s.exc))
+                    return [st]
+                if isinstance(built, S) and built.name.startswith("exc:"):
+                    st.term = ("raise", built.name[4:], norm(s.exc))
+                    return [st]
+            elif isinstance(s.exc, ast.Call):
                 # the exception object is built first: what its arguments evaluate (a message put together from helper calls
                 # and attribute reads) can itself raise, and then THAT exception is what leaves the statement
                 for a_r in list(s.exc.args) + [k_r.value for k_r in s.exc.keywords]:
